@@ -90,4 +90,5 @@ fn callbacks_boxed_system_and_empty()
     let log = world.resource::<Log>();
     assert!(log.n == 7 && log.items[1] == 11 && log.items[2] == 2 && log.items[3] == 3 && log.items[4] == 12 && log.items[5] == 2 && log.items[6] == 3, "C04: body, cleanup, deferred - both runs");
     std::mem::forget(world); std::mem::forget(cb);
+    kani::cover!(true, "end of harness reached");
 }
